@@ -231,12 +231,12 @@ Theorem c17_eptid_to_only_now :
 Proof. exact eptid_to_only_now_holds. Qed.
 Print Assumptions c17_eptid_to_only_now.
 
-(* ---- local values as Python objects (str / bool / int, in a list or alone; strengthening round 2).
-   Outside class 1 and class 4 (the integer 0 among the values, finding C17-F4) and for EVERY
-   converter set, name format and dictionary: each defined attribute goes out under the map's name,
-   name format and friendly name with exactly the lexical forms of its values (the str itself,
-   "true"/"false", the decimal numeral), every AttributeValue typed xs:string / xs:boolean /
-   xs:integer as its value is *)
+(* ---- local values as Python objects (str / bool / int / float, in a list or alone; strengthening
+   round 2).  Outside class 1 and for EVERY converter set, name format and dictionary — False, 0 and
+   0.0 included since repair 33a3a3a1 (finding C17-F4): each defined attribute goes out under the
+   map's name, name format and friendly name with exactly the lexical forms of its values (the str
+   itself, "true"/"false", the decimal numeral, the float as Python prints it), every AttributeValue
+   typed xs:string / xs:boolean / xs:integer / xs:float as its value is *)
 Theorem c17_typed_send : forall acs f a, send_cls_py acs f a = 0 -> spec_send_py acs f a (from_local_py acs a f).
 Proof. exact send_py_correct. Qed.
 Print Assumptions c17_typed_send.
@@ -248,26 +248,25 @@ Proof. exact round_py_correct. Qed.
 Print Assumptions c17_typed_round.
 
 (* do_ava gives every value its own AttributeValue: type and lexical form, in order — for lists and
-   for single objects, False included; only the integer 0 is excluded *)
+   for single objects, every falsy value included *)
 Theorem c17_do_ava_exact : forall v vs,
-  existsb is_zero (given v) = false -> given_texts v = Some vs ->
-  do_ava v = DOk (combine (map xs_type (given v)) vs).
+  given_texts v = Some vs -> do_ava v = DOk (combine (map xs_type (given v)) vs).
 Proof. exact do_ava_exact. Qed.
 Print Assumptions c17_do_ava_exact.
 
 (* the typed functions are the string-level ones applied to the lexical forms *)
 Theorem c17_typed_is_lexical : forall acs f a a' allow xml,
-  has_zero a = false -> py_scope_b acs f a = true -> givens a = Some a' ->
+  py_scope_b acs f a = true -> givens a = Some a' ->
   sres_wire (from_local_py acs a f) = from_local acs a' f /\
   rres_opt (roundtrip_py acs a f allow xml) = roundtrip acs a' f allow xml.
 Proof.
-  exact (fun acs f a a' allow xml Hz Hs Hg =>
-           conj (proj2 (from_local_py_lowered acs f a a' Hz Hs Hg)) (roundtrip_py_lowered acs f a a' allow xml Hz Hs Hg)).
+  exact (fun acs f a a' allow xml Hs Hg =>
+           conj (proj2 (from_local_py_lowered acs f a a' Hs Hg)) (roundtrip_py_lowered acs f a a' allow xml Hs Hg)).
 Qed.
 Print Assumptions c17_typed_is_lexical.
 
 Theorem c17_typed_send_receive : forall m a a' allow xml,
-  has_zero a = false -> py_scope_b [m] (nf m) a = true -> givens a = Some a' ->
+  py_scope_b [m] (nf m) a = true -> givens a = Some a' ->
   map_symmetric m -> covered m a' ->
   roundtrip_py [m] a (nf m) allow xml = ROk (canonical m m a').
 Proof. exact send_receive_py. Qed.
@@ -281,15 +280,38 @@ Theorem c17_spec_round_py_reflect : forall acs f a r, spec_round_py_b acs f a r 
 Proof. exact spec_round_py_b_iff. Qed.
 Print Assumptions c17_spec_round_py_reflect.
 
+(* the recognisers of the repaired classes 4, 3, 2 used by Corr.cls never hide the open class *)
+Theorem c17_send_cls_reg_py_open : forall acs f a,
+  send_cls_py acs f a <> 0 -> send_cls_reg_py acs f a = send_cls_py acs f a.
+Proof. exact send_cls_reg_py_open. Qed.
+Print Assumptions c17_send_cls_reg_py_open.
+
 Theorem c17_round_cls_reg_py_open : forall acs f a,
-  round_cls_py acs f a <> 0 -> round_cls_py acs f a <> 4 -> round_cls_reg_py acs f a = round_cls_py acs f a.
+  round_cls_py acs f a <> 0 -> round_cls_reg_py acs f a = round_cls_py acs f a.
 Proof. exact round_cls_reg_py_open. Qed.
 Print Assumptions c17_round_cls_reg_py_open.
 
-(* ---- at full strength the typed clauses are FALSE on the current tree (finding C17-F4): the
-   integer 0 cannot be sent, in a list or alone (do_ava: `elif val or val is False`) *)
-Theorem c17_zero_int_refuted :
-  (exists a, ~ spec_send_py [ZERO_MAP] NAME_FORMAT_URI a (from_local_py [ZERO_MAP] a NAME_FORMAT_URI)) /\
-  (exists a, ~ spec_round_py [ZERO_MAP] NAME_FORMAT_URI a (roundtrip_py [ZERO_MAP] a NAME_FORMAT_URI false true)).
-Proof. exact zero_int_refuted_holds. Qed.
-Print Assumptions c17_zero_int_refuted.
+(* ---- C17-F4, repaired by 33a3a3a1: the code as it was (do_ava: `elif val or val is False`,
+   from_local_py_v0 / roundtrip_py_v0) violated the typed clauses — the integer 0 (in a list, alone)
+   and the float 0.0 could not be sent ... *)
+Theorem c17_zero_int_v0_refuted :
+  (exists a, ~ spec_send_py [ZERO_MAP] NAME_FORMAT_URI a (from_local_py_v0 [ZERO_MAP] a NAME_FORMAT_URI)) /\
+  (exists a, ~ spec_round_py [ZERO_MAP] NAME_FORMAT_URI a (roundtrip_py_v0 [ZERO_MAP] a NAME_FORMAT_URI false true)) /\
+  (exists a, ~ spec_send_py [ZERO_MAP] NAME_FORMAT_URI a (from_local_py_v0 [ZERO_MAP] a NAME_FORMAT_URI) /\
+             has_zero a = true /\ forall e, In e a -> existsb (fun v => match v with PInt _ => true | _ => false end) (given (snd e)) = false).
+Proof. exact zero_v0_refuted_holds. Qed.
+Print Assumptions c17_zero_int_v0_refuted.
+
+(* ... and the same inputs ([False; 0], 0 alone, [0.0; 1.5]) are handled correctly now *)
+Theorem c17_zero_int_now :
+  from_local_py_v0 [ZERO_MAP] ZERO_LIST NAME_FORMAT_URI = SExc "OtherError" /\
+  from_local_py [ZERO_MAP] ZERO_LIST NAME_FORMAT_URI
+    = SOk [({| wname := Some "urn:x:loginCount"; wnf := Some NAME_FORMAT_URI; wfriendly := Some "loginCount";
+               wvals := [WText "false"; WText "0"] |}, ["xs:boolean"; "xs:integer"])] /\
+  spec_send_py [ZERO_MAP] NAME_FORMAT_URI ZERO_LIST (from_local_py [ZERO_MAP] ZERO_LIST NAME_FORMAT_URI) /\
+  roundtrip_py_v0 [ZERO_MAP] ZERO_ONE NAME_FORMAT_URI false true = RExc "OtherError" /\
+  roundtrip_py [ZERO_MAP] ZERO_ONE NAME_FORMAT_URI false true = ROk [("loginCount", [LStr "0"])] /\
+  spec_round_py [ZERO_MAP] NAME_FORMAT_URI ZERO_ONE (roundtrip_py [ZERO_MAP] ZERO_ONE NAME_FORMAT_URI false true) /\
+  roundtrip_py [ZERO_MAP] ZERO_FLOAT NAME_FORMAT_URI false true = ROk [("loginCount", [LStr "0.0"; LStr "1.5"])].
+Proof. exact zero_now_holds. Qed.
+Print Assumptions c17_zero_int_now.
